@@ -662,6 +662,7 @@ def rule_i(res: Results, idx: Index) -> None:
     lp = loops[0]
     mod = idx.module(OPTF)
     ok = None
+    protected = False
     for st in lp.body:                       # statements of the loop body itself: executed for every function
         for c in ast.walk(st) if not isinstance(st, (ast.For, ast.While)) else []:
             if not isinstance(c, ast.Call):
@@ -676,8 +677,14 @@ def rule_i(res: Results, idx: Index) -> None:
             writes_output = any(isinstance(x, ast.Assign) and any(isinstance(t, ast.Subscript) and isinstance(t.value, ast.Attribute) and t.value.attr == "outputs" for t in x.targets) for x in txt_nodes)
             if reads_outputs and reads_inputs and makes_identity and writes_output:
                 ok = (c, g)
-    if ok is not None:
-        res.ok("R-C03i", f"{OPTF}:{ok[0].lineno}", key, f"{ok[1].name}() runs for every function body after its passes: outputs that are inputs / repeated get an Identity", f.qualname)
+                # the passes can raise and the default policy keeps the graph: the repair has to sit in the `finally:` of the try
+                # that runs the passes
+                protected = isinstance(st, ast.Try) and any(c in list(ast.walk(fb)) for fb in st.finalbody) and any(isinstance(x, (ast.For, ast.While)) for b in st.body for x in ast.walk(b))
+    if ok is not None and not protected:
+        res.violation("R-C03i", f"{OPTF}:{ok[0].lineno}", key, f"{ok[1].name}() repairs function outputs only after ALL passes of the body succeeded: when a pass raises, the default (non-strict) policy returns the "
+                      "half-optimized model, whose folded function body has output == input (does not load in ONNX Runtime); the repair belongs in the `finally:` of the try that runs the passes", f.qualname)
+    elif ok is not None:
+        res.ok("R-C03i", f"{OPTF}:{ok[0].lineno}", key, f"{ok[1].name}() runs for every function body — in the finally of the try that runs its passes — : outputs that are inputs / repeated get an Identity", f.qualname)
     else:
         res.violation("R-C03i", f"{OPTF}:{lp.lineno}", key, "the folds re-route function outputs (`replace_graph_outputs=True`) and nothing afterwards gives an output that has become a function input a producing node: "
                       "`x.reshape(1, 3).reshape(3)` as a whole @onnx_function body leaves a function without nodes whose output is its input — ONNX Runtime refuses to load the model", f.qualname)
